@@ -1,2 +1,31 @@
-From Coq Require Import ZArith.
-From Lace Require Import CmdSpec Cmd.
+From Coq Require Import List NArith ZArith Bool String.
+From Lace Require Import CmdSpec Cmd CmdProofs Properties.C14.
+Import ListNotations.
+Open Scope N_scope.
+Check (C14_int_sound : forall s v, parse_integer s false = Ok (Some v) -> IntSyn s v).
+Check (C14_int_complete : forall s v, IntSyn s v -> parse_integer s false = Ok (Some v)).
+Check (C14_unambiguous : forall s v v', IntSyn s v -> IntSyn s v' -> v = v').
+Check (C14_total : forall raw, forallb (fun c => negb (is_delim c)) raw = true ->
+  forall w, parse_line raw <> Some (Panic w)).
+Check (C14_session_total : forall arg stdin e, In e (session arg stdin) ->
+  (forall w, e <> EvPanic w) /\ e <> EvOutOfFuel).
+Check (C14_transport :
+  (forall arg stdin,
+     session arg stdin = events (script_lines (arg_text arg) ++ script_lines stdin)) /\
+  (forall s, session (Some s) [] = session None s) /\
+  (forall a d b, is_delim d = true ->
+     session (Some a) b = session None (a ++ d :: b) /\
+     session (Some a) b = session (Some (a ++ d :: b)) [] /\
+     session (Some (a ++ [d])) b = session (Some a) b) /\
+  (forall f,
+     ((forall c, is_delim c = true -> is_delim (f c) = true) /\ (forall c, is_delim c = false -> f c = c)) ->
+     forall arg stdin, session (option_map (map f) arg) (map f stdin) = session arg stdin)).
+Check (C14_no_effect : forall ls1 l e ls2, try_from l = Err e ->
+  commands_of (events (ls1 ++ l :: ls2)) = commands_of (events (ls1 ++ ls2))).
+Print Assumptions C14_int_sound.
+Print Assumptions C14_int_complete.
+Print Assumptions C14_unambiguous.
+Print Assumptions C14_total.
+Print Assumptions C14_session_total.
+Print Assumptions C14_transport.
+Print Assumptions C14_no_effect.
